@@ -8,6 +8,7 @@ import (
 	"go/token"
 	"os"
 	"path/filepath"
+	"runtime/debug"
 	"strconv"
 	"strings"
 	"testing"
@@ -36,6 +37,7 @@ func TestMain(m *testing.M) {
 		stderrFile = f
 		os.Stderr = f
 	}
+	impl.DisturbEvery = 3 // every third parse/load is preceded by a parse of an unrelated malformed text
 	code := m.Run()
 	evid.Flush(code == 0)
 	if stderrFile != nil {
@@ -74,7 +76,24 @@ func mkReplay(src string) replay {
 
 // checkLexer drives the exported lexer and returns "" or a description of the
 // first violated covering rule, plus the token kind sequence.
-func checkLexer(src string) (string, string, int) {
+func checkLexer(src string) (msg string, kindSeq string, ntok int) {
+	defer func() {
+		if r := recover(); r != nil {
+			msg = fmt.Sprintf("the lexer panicked: %v\n%s", r, firstLines(string(debug.Stack()), 16))
+		}
+	}()
+	return checkLexer1(src)
+}
+
+func firstLines(s string, n int) string {
+	l := strings.Split(s, "\n")
+	if len(l) > n {
+		l = l[:n]
+	}
+	return strings.Join(l, "\n")
+}
+
+func checkLexer1(src string) (string, string, int) {
 	l := parser.Lex(src)
 	var it parser.Item
 	prevEnd := 0
@@ -263,10 +282,10 @@ func genBytes(t *rapid.T) string {
 }
 
 // lexSpans splits src into the lexer's items (text only); used for token-level mutation.
-func lexSpans(src string) [][2]int {
+func lexSpans(src string) (out [][2]int) {
+	defer func() { _ = recover() }() // a lexer panic is reported by checkLexer on the same text
 	l := parser.Lex(src)
 	var it parser.Item
-	var out [][2]int
 	for i := 0; i <= len(src)+1; i++ {
 		l.NextItem(&it)
 		if it.Typ == parser.ERROR || it.Typ == parser.EOF {
